@@ -649,3 +649,6 @@ def cases(rng, tier):
 
 def exhaustive(tier):
     return True   # every ordered pair (thorough: over 4 bits, plus every IPv4 triple over 3 bits) of singles/blocks/ranges of an IPv4 and an IPv6 prefix
+
+
+KNOWN_MUST_MATCH_MODEL = True   # inside a known finding's region the observation must still equal the model's (which reproduces the listed defect); see lib/vf/run.py
